@@ -67,6 +67,23 @@ pub fn execute(
     info: MessageInfo,
     msg: ExecuteMsg,
 ) -> Result<Response, ContractError> {
+    // Only messages that create or top up a Listing / Bucket take coins.
+    // Coins attached to any other message would be kept by the contract
+    // without being credited to anyone, so refuse them
+    // (the Receive wrappers do their own check)
+    let takes_coins = matches!(
+        msg,
+        ExecuteMsg::Receive(_)
+            | ExecuteMsg::ReceiveNft(_)
+            | ExecuteMsg::CreateListing { .. }
+            | ExecuteMsg::AddToListing { .. }
+            | ExecuteMsg::CreateBucket { .. }
+            | ExecuteMsg::AddToBucket { .. }
+    );
+    if !takes_coins && !info.funds.is_empty() {
+        return Err(ContractError::GenericError("This message does not accept funds".to_string()));
+    }
+
     match msg {
         ExecuteMsg::FeeCycle {} => execute_cycle_fee(deps, env),
 
